@@ -7,6 +7,8 @@ ALL = ["C%02d" % i for i in range(1, 21)]
 NA = {
     "C02": "Spectral correctness and rotation/permutation equivariance are statements about the limit of an unbounded floating-point NIPALS iteration (eigenvalue accuracy up to the convergence tolerance); no function contract expressible to CBMC states or decides them (DESIGN 4, C02).",
     "C04": "OLS limit, monotone RSS, beta/score-predictor equivalence and affine equivariance are numerical identities over matrix inversion and accumulated rounding; contract-based verification with CBMC has no decision procedure for them (DESIGN 4, C04).",
+    "C01": "Not claimed in this round: the clauses contract-based verification can decide for PCA() (shape/frame bookkeeping, npc clamp, start column = arg-max variance, calcVarExpressed) were planned (DESIGN 4, C01) but no check was built; orthonormality, reconstruction, variance monotonicity are numerical fixed-point statements that CBMC cannot decide. Listed here rather than claimed without a check (DESIGN 13.2).",
+    "C16": "Not claimed in this round: the decidable part (serialiser round trip, field/table agreement from an empty store) was planned (DESIGN 4, C16) but no check was built; 'whatever came before' depends on what sqlite3_exec does with DropAllTables' SQL, an external component that cannot be put under a contract without assuming the answer (DESIGN 13.2).",
     "C09": "Equality (up to sign and tolerance) between the fixed points of two floating-point iterations (CPCA vs PCA on concatenated blocks) is not expressible as a per-function contract decidable by CBMC (DESIGN 4, C09).",
 }
 checks = []; na = []
